@@ -28,6 +28,9 @@ CASES = {
                   'lib.m': "leaf p; box l { leaf q -> p; }"},
     'cycle': {'main': 'import "lib.m" leaf m1 -> l1; box mb { leaf m2; }',
               'lib.m': 'import "main" leaf l1 -> m2; leaf l2 -> l1;'},
+    # cases named string-*: the main model is loaded from a string (no file name) and the other files are
+    # reached through a global-repository provider (PlainNameGlobalRepo over <dir>/*.m)
+    'string-global': {'main': "box a { leaf x -> p; } leaf w -> x also q p;", 'lib.m': "leaf p; box l { leaf q -> p; }"},
 }
 VARIANTS = ['plain', 'slots', 'guarded']
 
@@ -122,11 +125,13 @@ def run_path(c, case, variant, global_repo, allow_fault, allow_replace, fault_ki
                 raise TextXSemanticError('injected fault at %s #%d' % (kind, i))
             raise Fault('injected fault at %s #%d' % (kind, i))
 
-    inner = P.PlainNameImportURI()
+    from_string = case.startswith('string-')
+    inner = P.PlainNameGlobalRepo(os.path.join(tmpd, '*.m')) if from_string else P.PlainNameImportURI()
+    from textx.scoping import ModelLoader
 
-    class Prov(P.ImportURI):
-        def __init__(self):
-            P.ImportURI.__init__(self, P.PlainName())
+    class Prov(ModelLoader):
+        def load_models(self, model, encoding='utf-8'):
+            return inner.load_models(model, encoding=encoding)
 
         def __call__(self, obj, attr, obj_ref):
             point('provider')
@@ -179,13 +184,28 @@ def run_path(c, case, variant, global_repo, allow_fault, allow_replace, fault_ki
         return None
     mm.register_obj_processors({'Import': stale, 'Leaf': stale, 'INT': lambda v: 0})
 
+    probed = []
+
     def match_proc(value):
         # processor of a match rule: runs during object-graph construction,
         # i.e. inside objects (user-class ones too) that are still being built
         point('match-processor')
+        if not probed:
+            probed.append(1)
+            if c.branch(z3.Bool('nested_probe')):
+                # user code that probes another text with the same metamodel while this load is in
+                # progress and swallows the failure (syntax error / unknown reference)
+                bad_text = 'leaf ;' if c.branch(z3.Bool('nested_probe_syntax')) else 'leaf n -> nowhere;'
+                try:
+                    mm.model_from_str(bad_text)
+                except TextXError:
+                    pass
         return value
-    mm.register_obj_processors({'Box': proc('Box'), 'Leaf': proc('Leaf'), 'Item': proc('Item'),
-                                'Model': proc('Model'), 'ID': match_proc})
+    # processors given through the public decorator textxerror_wrap behave like the bare ones
+    from textx import textxerror_wrap
+    wrap = textxerror_wrap if c.branch(z3.Bool('processors_wrapped')) else (lambda f: f)
+    mm.register_obj_processors({'Box': wrap(proc('Box')), 'Leaf': wrap(proc('Leaf')), 'Item': wrap(proc('Item')),
+                                'Model': wrap(proc('Model')), 'ID': match_proc})
 
     def model_proc(model, metamodel):
         log.append(('modelproc', None, None, None, (), id(model)))
@@ -196,7 +216,10 @@ def run_path(c, case, variant, global_repo, allow_fault, allow_replace, fault_ki
     model = None
     try:
         try:
-            model = mm.model_from_file(os.path.join(tmpd, 'main'))
+            if from_string:
+                model = mm.model_from_str(files['main'])
+            else:
+                model = mm.model_from_file(os.path.join(tmpd, 'main'))
             obs['outcome'] = 'ok'
         except Fault as e:
             obs['outcome'] = 'fault'
@@ -268,19 +291,25 @@ def reload_equal(mm, tmpd, case, variant, global_repo):
     processors switched to harmless ones) must work like a fresh metamodel"""
     from textx import metamodel_from_str
     import textx.scoping.providers as P
+    from_string = case.startswith('string-')
+    # after a string load the following load is a (valid) model file
+
     def load(m):
         try:
-            return ('ok', dump(m.model_from_file(os.path.join(tmpd, 'main'))))
+            return ('ok', dump(m.model_from_file(os.path.join(tmpd, 'lib.m' if from_string else 'main'))))
         except Exception as e:  # noqa
             return ('error', type(e).__name__, str(e))
-    mm.register_scope_providers({'*.*': P.PlainNameImportURI()})
+
+    def harmless():
+        return P.PlainNameGlobalRepo(os.path.join(tmpd, '*.m')) if from_string else P.PlainNameImportURI()
+    mm.register_scope_providers({'*.*': harmless()})
     mm.register_obj_processors({})
     mm._model_processors = []
     r1 = load(mm)
     log, refs = [], []
     Box, Leaf, Model = make_classes(variant, log, refs)
     mm2 = metamodel_from_str(GRAMMAR, classes=[Box, Leaf, Model], global_repository=global_repo)
-    mm2.register_scope_providers({'*.*': P.PlainNameImportURI()})
+    mm2.register_scope_providers({'*.*': harmless()})
     r2 = load(mm2)
     return r1 == r2 or ('different', r1, r2)
 
